@@ -14,7 +14,7 @@ TRUSTED = ['the encoding description E is read from GraphProcessor.all_des_vars'
            'a taken choice may be listed inactive by the implementation (auto-resolved choices): rows are matched one-to-one '
            'to architectures with that one relaxation']
 PARTIAL = ['connection choices: C11 machinery']
-batches = _proc.make_batches('C04', ['complete'], 400, 5000, cons_prob=0.25)
+batches = _proc.make_batches('C04', ['complete'], 1000, 6000, cons_prob=0.25)
 run_case = _proc.make_run_case(CLAUSES)
 compare = _proc.compare
 shrink_candidates = _proc.shrink_candidates
